@@ -114,7 +114,11 @@ CHECKS.update({
         technique="TLA+ abstract protocol spec + TLC exhaustive BFS; code->spec trace validation of simulated multi-node executions; Votor replay",
         design="4 C01"),
     "C02": dict(
-        text="Full-node executions (chaotic prefix with loss/reordering, then all delays <= 100 ms; < 20% crashed and < 20% "
+        text="Design level: MC_AbsProgress.tla adds proposing leaders, crashed validators, an asynchronous prefix (any "
+             "interleaving, timeouts at any time) and a timely phase (timeouts fire only when no message-driven step is possible) "
+             "to AlpenglowAbs; the horizon is finite and the state monotone, so progress is decided exhaustively as a safety "
+             "property: every terminal state must satisfy the goal (TLC deadlock detection), for silent and noisy Byzantine "
+             "validators. Code level: full-node executions (chaotic prefix with loss/reordering, then all delays <= 100 ms; < 20% crashed and < 20% "
              "Byzantine silent or noisy; faulty leaders at rotating positions) are validated event by event against "
              "AlpenglowAbs (Trace_Progress.tla) and, at the end of the trace, TLC evaluates the progress goal on the windows "
              "that started after stabilisation: every slot of a correct live leader's window finalized at every correct live "
@@ -122,7 +126,7 @@ CHECKS.update({
              "crashed / silent leaders skip-certified; highest finalized slot keeps up.",
         note="virtual time with the real timeout constants; the adequacy of the constants on a real network is not decided; "
              "sampled schedules (seeds), not all of them; a vacuity guard requires judged windows",
-        technique="code->spec trace validation with TLC (Trace_Progress.tla) of simulated multi-node executions; goal as end-of-trace invariant",
+        technique="TLC exhaustive BFS of the abstract protocol with leaders (progress as terminal-state property); code->spec trace validation (Trace_Progress.tla) of simulated multi-node executions",
         design="4 C02"),
     "C11": dict(
         text="Shred.tla: (i) the padding/shard arithmetic of reed_solomon.rs transcribed over integers and checked by TLC for every "
@@ -195,6 +199,38 @@ CHECKS.update({
              "schedules; hostile repair responses are unsolicited or mismatched (solicited-but-forged ones: C14); OS/UDP errors not covered",
         technique="TLA+ pipeline model + TLC BFS; hostile-traffic simulation of real nodes with panic capture and code->spec trace validation",
         design="4 C10"),
+})
+
+CHECKS.update({
+    "C20": dict(
+        text="ExecState.tla: an implementation-shaped trie (insert with split chains, remove with cascading collapse), the ordinary "
+             "ordered map as ghost, an ideal multiset lattice hash and the placeholder engine (pending/known parents, fold over the "
+             "transaction sequence, parent-hash fallback, finalize/prune). TLC checks MapGet/MapLength/MapIter, ShapeCanonical, "
+             "EqIffSameContents, LtHashMatches, ForkIsolation and the engine invariants on every reachable state of small models and "
+             "dumps every transition; they are replayed into real State / LtHash / DummyExecution objects in three key layouts (up to "
+             "245 shared prefix bits), comparing get/len/iter, the == matrix between forks, commitment equality classes, incremental = "
+             "recomputed hash and rebuilt-state equality after every step.",
+        note="bounds: <= 4 forks, 7 keys, 3 values, 5 blocks; SHA-256 / lattice-hash collision resistance trusted; the concrete fold "
+             "encoding is not pinned (equality classes are compared); " + TB,
+        technique="TLA+ spec + TLC exhaustive BFS and simulation + spec->code transition replay",
+        design="4 C20"),
+})
+
+CHECKS.update({
+    "C16": dict(
+        text="Dissemination.tla: leader send and forwarding rules of Rotor / Turbine / trivial dissemination under ONE global routing "
+             "function; TLC picks the protocol, N (2..6, 7 thorough), the fanout and every possible routing function / tree and "
+             "explores every interleaving of sends and deliveries: EveryoneReceives, ExactlyOnceTurbine, OneRelayBroadcastRotor hold "
+             "in every terminal state. Code->spec: three independently constructed instances per validator and kind (Rotor::new, "
+             "Rotor::new_fa1, Turbine with several fanouts; construction and query order shuffled, caches re-queried) run on a "
+             "recording network; TLC validates every recorded send against the spec with the routing function UNLOGGED (inferred "
+             "from first use): any instance acting inconsistently is an agreement divergence, the delivery predicates are evaluated "
+             "at run end.",
+        note="agreement is observed through the destinations of network sends; epochs sampled up to N=64, no faults/losses (the "
+             "property is about fault-free runs); the Rotor::new_fa1 constructor panic for some stake vectors is a known finding "
+             "(same root cause as C17-partition-empty-bins)",
+        technique="TLA+ spec + TLC exhaustive BFS over routing functions and schedules; code->spec trace validation with inferred routing function",
+        design="4 C16"),
 })
 
 NOT_YET = {
